@@ -1,5 +1,5 @@
 (** Correspondence check and property oracle for C14 (executable; no proofs). *)
-From Verif Require Import Lib.Base Lib.Json Lib.Str Generated.MessageGen Model.Message Model.ReqParam.
+From Verif Require Import Lib.Base Lib.Json Lib.JsonText Lib.Str Generated.MessageGen Model.Message Model.ReqParam.
 
 (** What the harness observes of a returned *ReqParam. *)
 Record obs := mkObs {
@@ -65,6 +65,7 @@ Definition check (c : case) : N :=
   match c with
   | CParam text tree logname conn ip_ok argv res =>
       if negb (oracle_param text tree logname conn ip_ok argv res) then 2
+      else if negb (option_eqb json_eqb (parse text) tree) then 1   (* text level: parser vs encoding/json *)
       else
         match model_result text tree logname conn ip_ok argv res, res with
         | Val (Ok p), Ok o =>
